@@ -231,6 +231,71 @@ theorem deleteService_cases (env : Env) (s s' : Server) (w : ResponseWriter) (rq
           · rw [← h.1]; exact mapGet_mapDelete_self _ _
           · intro k hk; rw [← h.1]; exact mapGet_mapDelete_other _ _ _ hk
 
+/-! ### the registry a server starts with (`Server.initializeServices`) -/
+
+/-- the registry after loading the services `names` (read without error as `svc n`), in order -/
+def loaded (svc : String → Service) (names : List String) (m : List (String × Option EntityDescriptor)) :
+    List (String × Option EntityDescriptor) :=
+  names.foldl (fun m n => mapSet m (svc n).Metadata.EntityID (some (svc n).Metadata)) m
+
+theorem initializeServices_loop (env : Env) (svc : String → Service) (names : List String) (s : Server)
+    (hget : ∀ n ∈ names, env.storeGet_Service ("/services/" ++ n) = .ok (svc n, none)) :
+    forIn names ((none : Option (Server × GoError)), s) (fun serviceName (st : Option (Server × GoError) × Server) => do
+        let r ← env.storeGet_Service ("/services/" ++ serviceName)
+        if r.snd.isSome = true then
+          (Outcome.ok (ForInStep.done (some (st.snd, r.snd), st.snd)) : Outcome (ForInStep (Option (Server × GoError) × Server)))
+        else
+          Outcome.ok (ForInStep.yield (none,
+            { serviceProviders := mapSet st.snd.serviceProviders r.fst.Metadata.EntityID (some r.fst.Metadata) })))
+      = .ok (none, { serviceProviders := loaded svc names s.serviceProviders }) := by
+  induction names generalizing s with
+  | nil => simp [loaded]
+  | cons n ns ih =>
+    have h1 := hget n (by simp)
+    simp only [List.forIn_cons, h1, Outcome.ok_bind', Option.isSome_none, Bool.false_eq_true, if_false]
+    rw [ih _ (fun m hm => hget m (by simp [hm]))]
+    simp [loaded]
+
+/-- C05 / C19: a server (re-)created over a store whose services all read without error serves exactly what loading them in
+    order gives -/
+theorem initializeServices_registry (env : Env) (s : Server) (svc : String → Service) (names : List String)
+    (hl : env.storeList "/services/" = .ok (names, none))
+    (hget : ∀ n ∈ names, env.storeGet_Service ("/services/" ++ n) = .ok (svc n, none)) :
+    initializeServices env s = .ok ({ serviceProviders := loaded svc names s.serviceProviders }, none) := by
+  unfold initializeServices
+  simp only [hl, Outcome.ok_bind', Outcome.pure_eq_ok, Option.isSome_none, Bool.false_eq_true, if_false]
+  rw [initializeServices_loop env svc names s hget]
+  simp
+
+theorem loaded_other (svc : String → Service) (names : List String) (m : List (String × Option EntityDescriptor)) (k : String)
+    (hk : ∀ n ∈ names, (svc n).Metadata.EntityID ≠ k) : mapGet (loaded svc names m) k = mapGet m k := by
+  induction names generalizing m with
+  | nil => rfl
+  | cons n ns ih =>
+    simp only [loaded, List.foldl_cons]
+    have := ih (mapSet m (svc n).Metadata.EntityID (some (svc n).Metadata)) (fun x hx => hk x (by simp [hx]))
+    simp only [loaded] at this
+    rw [this, mapGet_mapSet_other _ _ _ _ (fun e => hk n (by simp) e.symm)]
+
+/-- … and when the stored services have pairwise different entity IDs, each entity ID is served with its own metadata — every
+    issuer is resolved against its own registration, however many services the store holds -/
+theorem loaded_own (svc : String → Service) (names : List String) (m : List (String × Option EntityDescriptor))
+    (hnd : (names.map fun n => (svc n).Metadata.EntityID).Nodup) :
+    ∀ n ∈ names, mapGet (loaded svc names m) (svc n).Metadata.EntityID = some (some (svc n).Metadata) := by
+  induction names generalizing m with
+  | nil => intro n hn; cases hn
+  | cons x xs ih =>
+    intro n hn
+    simp only [List.map_cons, List.nodup_cons, List.mem_map, not_exists, not_and] at hnd
+    simp only [loaded, List.foldl_cons]
+    rcases List.mem_cons.mp hn with rfl | hmem
+    · have := loaded_other svc xs (mapSet m (svc n).Metadata.EntityID (some (svc n).Metadata)) (svc n).Metadata.EntityID
+        (fun y hy e => hnd.1 y hy e)
+      simp only [loaded] at this
+      rw [this, mapGet_mapSet_self]
+    · have := ih (mapSet m (svc x).Metadata.EntityID (some (svc x).Metadata)) hnd.2 n hmem
+      simpa [loaded] using this
+
 theorem TransI_registry_no_failures : TransI.transFailures = [] := by decide
 
 end SamlVerif.TransRegistry
